@@ -1,6 +1,127 @@
-//! C11 — stub (not built yet).
+//! C11 — TSIG: honest exchanges verify, tampering is rejected, MACs follow RFC 8945.
+//!
+//! Sub-checks
+//! * `txn`      request/answer transactions between the library's client and
+//!              server types with generated keys (all algorithms, truncation
+//!              policies, key stores), message contents, clocks around the
+//!              fudge window, buffer limits; every MAC is compared with the
+//!              independent reference in `refsig` (incl. the signed BADTIME
+//!              error); verified messages must read as their pre-signing octets.
+//! * `seq`      multi-message responses: `ServerSequence` → `ClientSequence`
+//!              with the running digest checked message by message, and
+//!              reference-signed patterns with unsigned messages (runs of 98,
+//!              99, 100, 101), replayed / altered / dropped messages.
+//! * `tamper`   one alteration of a conformant signed message (bit flip per
+//!              field class incl. each TSIG RR field, MAC length changes, TSIG
+//!              moved / duplicated / removed / in another section, another
+//!              key's name or algorithm, changed ID) → the outcome RFC 8945
+//!              assigns, on the server, the client transaction and the client
+//!              sequence (first and later message).
+//! * `wrappers` `net::server::middleware::tsig` around a mock service and
+//!              `net::client::tsig::Connection` over a mock upstream.
 use crate::engine::*;
+use std::collections::BTreeMap;
+
+pub mod common;
+pub mod honest;
+pub mod refsig;
+pub mod seq;
+pub mod tamper;
+pub mod wrappers;
+
+const NEEDED: &[&str] = &[
+    "request-verified",
+    "answer-verified",
+    "truncation",
+    "clock-within-1s-of-window-edge",
+    "server-badtime",
+    "client-badtime",
+    "policy-badtrunc",
+    "tsig-does-not-fit-request",
+    "tsig-fits-exactly",
+    "lib-signed-sequence-verified",
+    "lib-signed-sequence-2+",
+    "rfc-signed-sequence-verified",
+    "sequence-with-unsigned",
+    "signed-after-99-unsigned-verified",
+    "100th-unsigned-rejected",
+    "last-unsigned-rejected-by-done",
+    "fault-replay-signed",
+    "altered-unsigned-detected-by-next-mac",
+    "outcome-exactly-predicted",
+    "tampered-but-legitimately-accepted",
+    "tsig-hidden-detected-by-next-mac",
+    "tamper/flip-message-id",
+    "tamper/flip-header-flags",
+    "tamper/flip-body-rdata",
+    "tamper/tsig-owner-content-flip",
+    "tamper/tsig-owner-case-flip",
+    "tamper/tsig-type-flip",
+    "tamper/tsig-class-flip",
+    "tamper/tsig-ttl-flip",
+    "tamper/tsig-rdlength-flip",
+    "tamper/tsig-algorithm-content-flip",
+    "tamper/tsig-time-flip",
+    "tamper/tsig-fudge-flip",
+    "tamper/tsig-mac-size-flip",
+    "tamper/tsig-mac-flip",
+    "tamper/tsig-original-id-flip",
+    "tamper/tsig-error-flip",
+    "tamper/tsig-other-len-flip",
+    "tamper/mac-shorter-than-rfc-minimum",
+    "tamper/mac-shorter-than-local-minimum",
+    "tamper/mac-truncated-to-allowed-length",
+    "tamper/mac-longer-than-hash-output",
+    "tamper/record-after-tsig",
+    "tamper/tsig-swapped-with-previous-record",
+    "tamper/tsig-duplicated",
+    "tamper/tsig-removed",
+    "tamper/tsig-in-other-section",
+    "tamper/other-keys-name",
+    "tamper/other-algorithm-of-same-name",
+    "tamper/unknown-algorithm",
+    "middleware-exchange-verified",
+    "client-wrapper/verified",
+    "client-wrapper/rejected",
+];
+
+fn health(c: &BTreeMap<String, u64>, _thorough: bool) -> Result<(), String> {
+    for k in NEEDED {
+        if c.get(*k).copied().unwrap_or(0) == 0 {
+            return Err(format!("class {k} is empty: the check would be vacuous there"));
+        }
+    }
+    for a in ["hmac-sha1", "hmac-sha256", "hmac-sha384", "hmac-sha512"] {
+        if c.get(&format!("alg-{a}")).copied().unwrap_or(0) == 0 {
+            return Err(format!("algorithm {a} never used"));
+        }
+    }
+    for side in ["Server", "CliTxn", "SeqFirst", "SeqSub"] {
+        if !c.keys().any(|k| k.starts_with(&format!("{side}/"))) {
+            return Err(format!("no tampering delivered to {side}"));
+        }
+    }
+    Ok(())
+}
 
 pub fn prop() -> Option<Prop> {
-    None
+    Some(Prop {
+        id: "C11",
+        rule: "case = keys (algorithm, secret, name in two cases, min_mac_len, signing_len per side) + messages + clocks (+ signed/unsigned pattern, + one tampering); non-trivial = a truncating key policy is involved, or a sequence contains at least one unsigned message, or a receiver clock is within 1 s of a fudge-window edge, or the tampering hits a TSIG RR field / the TSIG position (not just a payload bit); distinct by the decoded case",
+        assumptions: &[
+            "independent reference props/c11/refsig.rs: HMAC built on ring::digest (hash primitive shared with the library, HMAC construction not), RFC 8945 digest layout; cross-checked against RFC 4231 / RFC 2202 vectors, the signed exchange in test-data/server/tsig.rpl and vectors from a separate Python implementation",
+            "expected error codes are RFC 8945 sections 5.2-5.3 as read by the harness author (FORMERR for misplaced/duplicate/uninterpretable TSIG and MAC sizes outside 5.2.2.1, BADKEY, BADSIG, BADTRUNC, BADTIME signed with 6 octets of server time)",
+            "after verification the message must read as the pre-signing octets (prefix equality + record walk ends there); the TSIG octets stay behind the message end as documented for Message::remove_last_additional",
+            "sub-check wrappers uses the wall clock through Time48::now() inside the library; the mock peers echo the time they see, so results only assume a case takes less than the 300 s fudge",
+            "messages enter the signing calls through a custom Composer target pre-loaded with generated message octets (AdditionalBuilder has no public constructor from octets)",
+        ],
+        subchecks: vec![
+            SubCheck::new("txn", honest::run_txn, 60_000, 1_000_000, 1200),
+            SubCheck::new("seq", seq::run_seq, 30_000, 250_000, 1200),
+            SubCheck::new("tamper", tamper::run_tamper, 150_000, 2_500_000, 1000),
+            SubCheck::new("wrappers", wrappers::run_wrappers, 20_000, 250_000, 600),
+        ],
+        health: Some(health),
+        extra: None,
+    })
 }
